@@ -1,6 +1,6 @@
 """C08 - a parse depends only on its own input, not on earlier parses (DESIGN 4/C08)."""
 from props.common import run_with
-from props.inclcommon import rest_obs, push_obs
+from props.inclcommon import rest_obs, push_obs, rdfail_obs
 from props.lexcommon import lex_step_obs
 
 NEEDS_LEXER = True
@@ -11,6 +11,8 @@ def build_obs(tier, tables):
     obs = rest_obs("c08", depths=(0, 1, 3))
     # failing includes must not leave a trace in the process-global include stack
     obs += push_obs("c08")
+    # a read failure is reported for the source it belongs to and then forgotten
+    obs += rdfail_obs("c08")
     return obs
 
 
